@@ -703,7 +703,11 @@ func (c *Ctx) hugeTxCases() {
 				sc.txs = append(sc.txs, genTx{raw: raw2, isBlob: true, inner: btx2.Tx, blobs: one})
 				sc.desc += " b[v0:600]"
 			}
+			// the 2 MiB case goes through the Go-side oracles only in the quick tier (the model tie for these
+			// sizes is exercised in the thorough tier and by the 1 MiB case)
+			c.goOnly = !c.thorough && L >= 1<<21
 			c.squareCase(sc)
+			c.goOnly = false
 			c.dist("huge-tx")
 		}
 	}
